@@ -136,13 +136,9 @@ def observe_dag(case, study, dag, root):
             nodes.append({"name": n, "kids": kids, "deps": deps, "rec": False})
             continue
         step = rec.step
-        orig = None
-        # the StudyStep this record was expanded from: longest step name that prefixes the node name
-        for sname in sorted(by_name, key=len, reverse=True):
-            if n == sname or n.startswith(sname + "_"):
-                orig = by_name[sname]
-                break
-        rk = rest_keys(orig) if orig else []
+        # the remaining non-empty string entries of the expanded run dict (read off the record itself:
+        # when an instance name equals another step's name -- outside H8 -- `orig` is ambiguous)
+        rk = [k for k, v in step.run.items() if k not in SPECIAL and isinstance(v, str) and v != ""]
         nodes.append({
             "name": n, "kids": kids, "deps": deps, "rec": True,
             "ws": rel_ws(rec.workspace.value, root),
